@@ -120,6 +120,10 @@ def atoms_case(rng, n):
     return a
 
 
+def regen(ctx):
+    return nc.regen_nmr_utils(ctx)
+
+
 def run(ctx):
     from soprano.nmr.utils import _evals_sort
     from soprano.nmr.tensor import NMRTensor
@@ -135,7 +139,7 @@ def run(ctx):
                     "hand model model/TensorFrameBody.v of _process_data/_order_tensor, tied by exact correspondence",
                     "oracle contract (hypothesis of from_matrix_spec/from_pair_equiv): np.linalg.eigh returns an orthonormal frame diagonalising its argument, ascending; sampled each run",
                     "modelled, not verified: IEEE rounding (exact-input streams for decisions, 1e-9 relative tolerance elsewhere), LAPACK"]
-    nc.regen_nmr_utils(ctx)
+    regen(ctx)
     ctx.build_props()
     ctx.build_models(["model/NmrUtilsQ.vo"])
 
